@@ -76,12 +76,13 @@ func c16Succeeds(kind string) bool {
 func c16IsHTTP(kind string) bool { return kind == c16OKHTTP || strings.HasPrefix(kind, "http-") }
 
 type c16Src struct {
-	Kind       string `json:"kind"`
-	Seed       uint64 `json:"seed"`
-	MapFile    string `json:"map_file,omitempty"`     // binary-location stream: file name of the profile's mapping
-	MapBuildID string `json:"map_build_id,omitempty"` // … and its build id ("" = none)
-	Unit0      string `json:"unit0,omitempty"`        // units stream: unit of sample type 0 (cpu) …
-	Unit1      string `json:"unit1,omitempty"`        // … and of sample type 1 (space)
+	Kind       string   `json:"kind"`
+	Seed       uint64   `json:"seed"`
+	MapFile    string   `json:"map_file,omitempty"`     // binary-location stream: file name of the profile's mapping
+	MapBuildID string   `json:"map_build_id,omitempty"` // … and its build id ("" = none)
+	Unit0      string   `json:"unit0,omitempty"`        // units stream: unit of sample type 0 (cpu) …
+	Unit1      string   `json:"unit1,omitempty"`        // … and of sample type 1 (space)
+	Types      []string `json:"types,omitempty"`        // sample-types stream: this source's sample types, in its own order
 }
 
 type c16Case struct {
@@ -99,6 +100,7 @@ type c16Case struct {
 	Rounds    int           `json:"rounds,omitempty"`
 	Envs      []c16Env      `json:"envs,omitempty"`            // run in child processes under these environments (c16_env.go)
 	Perf      bool          `json:"perf_conversion,omitempty"` // perf.data sources converted by the stand-in perf_to_profile (c16_perf.go)
+	Types     bool          `json:"sample_types,omitempty"`    // sources list partially overlapping sample-type sets (c16_types.go)
 	Units     bool          `json:"units,omitempty"`           // sources report their sample types in different compatible units (c16_units.go)
 	Bin       bool          `json:"binary_location,omitempty"` // mappings are located under a generated $PPROF_BINARY_PATH tree (c16_bin.go)
 	Tree      []c16BinEntry `json:"tree,omitempty"`
@@ -198,6 +200,23 @@ func c16ProfileOf(group, id int, s c16Src) *profile.Profile {
 	if s.MapFile != "" {
 		p.Mapping[0].File, p.Mapping[0].BuildID = s.MapFile, s.MapBuildID
 	}
+	if len(s.Types) > 0 {
+		p.SampleType = nil
+		for _, t := range s.Types {
+			p.SampleType = append(p.SampleType, &profile.ValueType{Type: t, Unit: "count"})
+		}
+		for _, sm := range p.Sample {
+			base := sm.Value[0]
+			sm.Value = make([]int64, len(s.Types))
+			for k, t := range s.Types {
+				sm.Value[k] = c16TypeVal(base, t)
+			}
+		}
+		if (s.Kind == c16Invalid || s.Kind == c16InvalidFile) && len(p.Sample) > 0 {
+			last := p.Sample[len(p.Sample)-1]
+			last.Value = append(last.Value, 1) // one value too many: fails CheckValid
+		}
+	}
 	if s.Unit0 != "" {
 		p.SampleType = []*profile.ValueType{{Type: "cpu", Unit: s.Unit0}, {Type: "space", Unit: s.Unit1}}
 		for _, sm := range p.Sample {
@@ -255,6 +274,21 @@ func (w c16W) add(p *profile.Profile, sign int64, extra string) {
 	}
 }
 
+// addOff: like add for the value columns off and off+1.
+func (w c16W) addOff(p *profile.Profile, sign int64, extra string, off int) {
+	for _, s := range p.Sample {
+		if len(s.Value) <= off {
+			continue
+		}
+		k := c16Key(s, extra)
+		v := w[k]
+		for i := 0; i < 2 && off+i < len(s.Value); i++ {
+			v[i] += sign * s.Value[off+i]
+		}
+		w[k] = v
+	}
+}
+
 func (w c16W) dropZero() {
 	for k, v := range w {
 		if v[0] == 0 && v[1] == 0 {
@@ -265,23 +299,42 @@ func (w c16W) dropZero() {
 
 // c16Expect is the property's right-hand side, computed from the case alone.
 type c16Expect struct {
-	Fail     bool
-	W        c16W
-	Comments []string
-	DocURL   string
-	OkSrc    []int
-	OkBase   []int
-	NFail    [2]int
-	Time     int64     // earliest collection time among the successful sources and bases
-	Finest   [2]string // units stream: finest unit per sample type among the successful sources and bases
+	Fail         bool
+	W            c16W
+	Comments     []string
+	DocURL       string
+	OkSrc        []int
+	OkBase       []int
+	NFail        [2]int
+	Time         int64    // earliest collection time among the successful sources and bases
+	Common       []string // sample-types stream: types common to all fetched sources and bases, in the first one's order
+	HasTypes     bool
+	NoCommonType bool
+	W2           c16W      // columns 2 and 3 (sample-types stream)
+	Finest       [2]string // units stream: finest unit per sample type among the successful sources and bases
 }
 
 func c16Expected(cs *c16Case, kinds []string) *c16Expect {
 	e := &c16Expect{W: c16W{}}
 	n := len(cs.Sources)
 	e.Finest = c16Finest(cs, kinds)
+	e.Common, e.HasTypes = c16Common(cs, kinds)
+	e.W2 = c16W{}
 	scaled := func(g, id int, s c16Src) *profile.Profile {
 		p := c16ProfileOf(g, id, s)
+		if e.HasTypes { // keep the common types only, in the common order
+			pos := map[string]int{}
+			for k, t := range s.Types {
+				pos[t] = k
+			}
+			for _, sm := range p.Sample {
+				v := make([]int64, len(e.Common))
+				for k, t := range e.Common {
+					v[k] = sm.Value[pos[t]]
+				}
+				sm.Value = v
+			}
+		}
 		ratio := c16UnitRatio(s, e.Finest)
 		for _, sm := range p.Sample {
 			for i := range sm.Value {
@@ -302,7 +355,9 @@ func c16Expected(cs *c16Case, kinds []string) *c16Expect {
 		if t := c16Time(0, i); e.Time == 0 || t < e.Time {
 			e.Time = t
 		}
-		e.W.add(scaled(0, i, s), 1, "")
+		sp := scaled(0, i, s)
+		e.W.add(sp, 1, "")
+		e.W2.addOff(sp, 1, "", 2)
 		e.Comments = append(e.Comments, c16Token(0, i))
 		if e.DocURL == "" {
 			e.DocURL = "http://doc.invalid/" + c16Token(0, i)
@@ -322,11 +377,17 @@ func c16Expected(cs *c16Case, kinds []string) *c16Expect {
 		if cs.DiffBase {
 			extra = "pprof::base=true"
 		}
-		e.W.add(scaled(1, j, s), -1, extra)
+		bp := scaled(1, j, s)
+		e.W.add(bp, -1, extra)
+		e.W2.addOff(bp, -1, extra, 2)
 		e.Comments = append(e.Comments, c16Token(1, j))
 	}
 	e.W.dropZero()
+	e.W2.dropZero()
 	e.Fail = len(e.OkSrc) == 0 || (len(cs.Bases) > 0 && len(e.OkBase) == 0)
+	if e.HasTypes && !e.Fail && len(e.Common) == 0 {
+		e.Fail, e.NoCommonType = true, true // documented error: no sample type common to all fetched profiles
+	}
 	return e
 }
 
@@ -652,6 +713,9 @@ func c16ExecOrd(root string, cs *c16Case, kinds []string, delays, order []int, f
 	if cs.Units {
 		sampleIndex = map[string]string{"allocs": "cpu", "objs": "space"}[sampleIndex]
 	}
+	if cs.Types {
+		sampleIndex = "" // the default: whatever the last common type is
+	}
 	fl := &c16Flags{bools: map[string]bool{format: true, "trim": false},
 		strs:  map[string]string{"output": "c16out", "sample_index": sampleIndex, "symbolize": "none"},
 		lists: map[string][]string{}, args: args}
@@ -800,7 +864,12 @@ func (k *c16Checker) check(cs *c16Case, label string, kinds []string, exp *c16Ex
 	}
 	ok := true
 	// verdict
-	if obs.Failed != exp.Fail {
+	if obs.Failed != exp.Fail && exp.NoCommonType {
+		ok = viol("C16/types/no-common-type-accepted", "PProf succeeded although the fetched sources have no sample type in common")
+	} else if obs.Failed != exp.Fail && obs.Failed && exp.HasTypes && strings.Contains(obs.Err, "sample type") {
+		ok = viol("C16/types/compatible-sources-rejected", fmt.Sprintf("PProf failed (%s) although all fetched sources share the sample types [%s]",
+			trunc16(obs.Err), strings.Join(exp.Common, ",")))
+	} else if obs.Failed != exp.Fail {
 		if obs.Failed {
 			ok = viol("C16/verdict/failed-although-groups-nonempty", fmt.Sprintf("PProf failed (%s) although %d source(s) and %d of %d base(s) were fetched",
 				trunc16(obs.Err), len(exp.OkSrc), len(exp.OkBase), len(cs.Bases)))
@@ -870,6 +939,23 @@ func (k *c16Checker) check(cs *c16Case, label string, kinds []string, exp *c16Ex
 			ok = viol(sig, fmt.Sprintf("merged comments (one per source, in merge order) are %s, want %s", trunc16(strings.Join(p.Comments, " ")), trunc16(strings.Join(exp.Comments, " "))))
 		} else if p.DocURL != exp.DocURL {
 			ok = viol("C16/order/first-source-header", fmt.Sprintf("DocURL %q, want that of the first successful source %q", p.DocURL, exp.DocURL))
+		}
+		if exp.HasTypes {
+			var names []string
+			for _, st := range p.SampleType {
+				names = append(names, st.Type)
+			}
+			if strings.Join(names, ",") != strings.Join(exp.Common, ",") {
+				ok = viol("C16/types/not-the-common-types", fmt.Sprintf("report has the sample types [%s]; the types common to all fetched sources, in the first one's order, are [%s]",
+					strings.Join(names, ","), strings.Join(exp.Common, ",")))
+			} else if len(exp.Common) > 2 {
+				got2 := c16W{}
+				got2.addOff(p, 1, "", 2)
+				got2.dropZero()
+				if _, what := c16DiffW(got2, exp.W2, []int{0, 1}); what != "" {
+					ok = viol("C16/types/values", "sample types 3/4: "+what)
+				}
+			}
 		}
 		if cs.Units && exp.Finest[0] != "" && len(p.SampleType) == 2 {
 			if p.SampleType[0].Unit != exp.Finest[0] || p.SampleType[1].Unit != exp.Finest[1] {
@@ -1128,6 +1214,11 @@ func (k *c16Checker) model(cs *c16Case, label string, kinds []string, obs *c16Ob
 		return
 	}
 	mberrs, _ := parse(p + 1)
+	if common, has := c16Common(cs, kinds); has && len(common) == 0 {
+		// no common sample type: combineProfiles fails (MergeSpec's compatibility hypothesis does not
+		// hold), which the free-monoid instance of the model cannot show
+		return
+	}
 	if f[0] != verdict {
 		bad("C16/model/verdict", fmt.Sprintf("model verdict %s, real code %s (%s)", f[0], verdict, trunc16(obs.Err)))
 	}
@@ -1231,6 +1322,42 @@ func (k *c16Checker) modelUnits(cs *c16Case, kinds []string, exp *c16Expect) {
 				"Fetch.unitSum (Model/Fetch.lean) ↔ harness c16Expected", cs)
 			return
 		}
+	}
+}
+
+// modelTypes: the expected common sample types must be the model's (Fetch.commonTypes).
+func (k *c16Checker) modelTypes(cs *c16Case, kinds []string, exp *c16Expect) {
+	code := map[string]int{}
+	for i, t := range c16TypePool {
+		code[t] = i + 1
+	}
+	var lists []string
+	n := len(cs.Sources)
+	// the model's list order: fetched sources first (the first one gives the order), then fetched bases
+	for pass := 0; pass < 2; pass++ {
+		for i, s := range cs.all() {
+			if !c16Succeeds(kinds[i]) || (i < n) != (pass == 0) {
+				continue
+			}
+			l := []string{fmt.Sprint(len(s.Types))}
+			for _, t := range s.Types {
+				l = append(l, fmt.Sprint(code[t]))
+			}
+			lists = append(lists, strings.Join(l, " "))
+		}
+	}
+	if len(exp.OkSrc) == 0 {
+		return
+	}
+	want := []string{fmt.Sprint(len(exp.Common))}
+	for _, t := range exp.Common {
+		want = append(want, fmt.Sprint(code[t]))
+	}
+	rep := k.c.Drv.Ask(strings.Join(strings.Fields(fmt.Sprintf("fetch.common %d %s", len(lists), strings.Join(lists, " "))), " "))
+	k.c.Res.ModelCompared++
+	if rep != strings.Join(want, " ") {
+		k.c.Disagree("C16/model/common-types", fmt.Sprintf("[%s] model's common sample types %q, harness expectation %q", cs.Name, rep, strings.Join(want, " ")),
+			"Fetch.commonTypes (Model/Fetch.lean) ↔ harness c16Common", cs)
 	}
 }
 
@@ -1438,6 +1565,11 @@ func (k *c16Checker) runCase(cs *c16Case) {
 		if cs.NoTool {
 			c.Res.Hit("burst-cases-without-tool")
 		}
+	}
+	if cs.Types {
+		c.Res.Hit("sample-types-cases")
+		c.Res.Hit(fmt.Sprintf("sample-types-common-%d", len(exp.Common)))
+		k.modelTypes(cs, kinds, exp)
 	}
 	if cs.Units {
 		c.Res.Hit("units-cases")
@@ -1738,7 +1870,7 @@ func runC16(c *Ctx) {
 }
 
 func c16Worker(c *Ctx) {
-	c.Res.Rule = "cases: 1…300 sources (all sizes 1-8 with every outcome vector and EVERY completion order for n=3, sizes around the 127/128/129 and 255/256/257 chunk boundaries, random sizes) × 0…130 -base/-diff_base sources, each source independently a valid profile (from the Fetcher plug-in, a file, or an HTTP body), or failing (Fetcher error, missing file, garbage file/body, invalid profile, HTTP 500, transport error); a stream of 2…8 sources (+ bases) mixing https:// (untrusted server: must fail; server trusted through -tls_ca: must succeed), https+insecure://, http:// and file/plug-in sources fetched through the PRODUCTION internal/transport against servers on 127.0.0.1, released one after the other in PRNG permutations, all-insecure-first and all-strict-first orders, plus one delay-scheduled run through the driver's default transport wiring; a stream of 2…7 sources (+ bases) whose mappings (same file name under several build ids, some without build id) are located under a generated $PPROF_BINARY_PATH tree (<buildid>/<name>, plain <name>, stale and missing entries) through a mock ObjTool, with failing neighbours, under ≥3 delay schedules; a stream of perf.data sources with EQUAL base names in different directories, converted concurrently by a stand-in perf_to_profile (this binary re-executed) whose writes and exits are staggered so that the conversions overlap; a stream of bursts (40…200 local profile files mixed with PERFILE2-prefixed files — convertible, failing, and unconvertible because PATH lacks the tool — all released into pprof's fetch code at the same instant, 4 rounds each); a stream through driver.PProf with the DEFAULT UI (Options.UI == nil) in a child process whose stderr is a one-page pipe with a slow reader, ≥100 failing sources and ≥100 failing bases, 8 rounds: every stderr line is exactly one complete message; a stream of URL-source cases run in child processes under 6 environments each (HOME unset/empty/unusable/usable × PPROF_TMPDIR unset/usable/unusable × TMPDIR unset/usable/unusable × cwd writable or not, always with a successfully fetched remote source so that the save step runs): verdict, report and per-source error lines equal the expectation in every environment; a stream of sources reporting the same sample types in different compatible units (ns/us/ms/s, bytes/kB/MB) in every position with failing neighbours (merged values = sum of the per-source values converted to the finest unit among the successful ones); each case runs the real driver.PProf under ≥3 PRNG-derived delay schedules (random, reverse, failures-first) and with the failing sources failing differently. non-trivial = ≥2 sources, at least one success and one failure, an observed completion order that is not the command-line order and ≥2 distinct observed completion orders."
+	c.Res.Rule = "cases: 1…300 sources (all sizes 1-8 with every outcome vector and EVERY completion order for n=3, sizes around the 127/128/129 and 255/256/257 chunk boundaries, random sizes) × 0…130 -base/-diff_base sources, each source independently a valid profile (from the Fetcher plug-in, a file, or an HTTP body), or failing (Fetcher error, missing file, garbage file/body, invalid profile, HTTP 500, transport error); a stream of 2…8 sources (+ bases) mixing https:// (untrusted server: must fail; server trusted through -tls_ca: must succeed), https+insecure://, http:// and file/plug-in sources fetched through the PRODUCTION internal/transport against servers on 127.0.0.1, released one after the other in PRNG permutations, all-insecure-first and all-strict-first orders, plus one delay-scheduled run through the driver's default transport wiring; a stream of 2…7 sources (+ bases) whose mappings (same file name under several build ids, some without build id) are located under a generated $PPROF_BINARY_PATH tree (<buildid>/<name>, plain <name>, stale and missing entries) through a mock ObjTool, with failing neighbours, under ≥3 delay schedules; a stream of perf.data sources with EQUAL base names in different directories, converted concurrently by a stand-in perf_to_profile (this binary re-executed) whose writes and exits are staggered so that the conversions overlap; a stream of bursts (40…200 local profile files mixed with PERFILE2-prefixed files — convertible, failing, and unconvertible because PATH lacks the tool — all released into pprof's fetch code at the same instant, 4 rounds each); a stream through driver.PProf with the DEFAULT UI (Options.UI == nil) in a child process whose stderr is a one-page pipe with a slow reader, ≥100 failing sources and ≥100 failing bases, 8 rounds: every stderr line is exactly one complete message; a stream of URL-source cases run in child processes under 6 environments each (HOME unset/empty/unusable/usable × PPROF_TMPDIR unset/usable/unusable × TMPDIR unset/usable/unusable × cwd writable or not, always with a successfully fetched remote source so that the save step runs): verdict, report and per-source error lines equal the expectation in every environment; a stream of ≥3 sources (+ bases) with PARTIALLY OVERLAPPING sample-type sets (random non-empty subsets of 4 types in permuted order, usually one type common to all, every fifth case all-disjoint = documented error) with failing neighbours in every position: the report has exactly the types common to all fetched sources in the first one's order and the sums for them; a stream of sources reporting the same sample types in different compatible units (ns/us/ms/s, bytes/kB/MB) in every position with failing neighbours (merged values = sum of the per-source values converted to the finest unit among the successful ones); each case runs the real driver.PProf under ≥3 PRNG-derived delay schedules (random, reverse, failures-first) and with the failing sources failing differently. non-trivial = ≥2 sources, at least one success and one failure, an observed completion order that is not the command-line order and ≥2 distinct observed completion orders."
 	root, err := os.MkdirTemp("", "pvc16-")
 	if err != nil {
 		c.Res.HarnessError = "cannot create scratch directory: " + err.Error()
@@ -1864,6 +1996,10 @@ func c16Worker(c *Ctx) {
 	// (1h) URL sources under varying process environments (HOME / PPROF_TMPDIR / TMPDIR / cwd)
 	for i := 0; i < 4*c.Scale; i++ {
 		k.runCase(c16GenEnv(r.Fork(), i))
+	}
+	// (1i) partially overlapping sample-type sets
+	for i := 0; i < 10*c.Scale; i++ {
+		k.runCase(c16GenTypes(r.Fork(), i))
 	}
 	// (1e) the same sample types in different compatible units
 	for i := 0; i < 10*c.Scale; i++ {
